@@ -23,7 +23,7 @@ INFO = dict(
               'delay, requests arrive at symbolic instants (each in its own greenlet), the transport faults at a symbolic instant; oracle: never '
               'more than one live underlying sink, concurrent first requests share one CreateSink/Open, every request reaches the sink that is '
               'current, after a failure the next request creates exactly one fresh sink.',
-  bounds={'quick': 'ref count symbolic in [0, 10^6]; histories k <= 5; singleton: 2 requests + 1 fault', 'thorough': 'histories k <= 8; singleton: 3 requests + 1 fault'},
+  bounds={'quick': 'ref count symbolic in [0, 10^6]; histories k <= 6; singleton: 2 requests + 1 fault', 'thorough': 'histories k <= 12; singleton: 3 requests + 1 fault'},
   outside=['more than 3 concurrent requests on the singleton pool', 'Open() of the underlying transport failing (covered with the real transports in C08/C09)'],
   stubs=['fake underlying sinks recording Open/Close/CreateSink (3.12)', 'virtual loop (3.1)'],
   assumptions=['A1, A3'],
@@ -59,9 +59,9 @@ class Under(object):
 
 
 def jobs(tier):
-  k = 5 if tier == 'quick' else 8
+  k = 6 if tier == 'quick' else 12
   js = [dict(name='refcount-step-open', op='rc-open', cost=1), dict(name='refcount-step-close', op='rc-close', cost=1),
-        dict(name='refcount-history-k%d' % k, op='rc-hist', k=k, cost=2 ** k),
+        dict(name='refcount-history-k%d' % k, op='rc-hist', k=k, cost=2 ** k, shards=1 if k <= 6 else 32, shard_depth=5),
         dict(name='shared', op='shared', cost=5),
         dict(name='singleton-r2', op='singleton', n=2, cost=500, shards=8, shard_depth=4)]
   if tier != 'quick':
